@@ -270,7 +270,7 @@ func (g *genCfg) pick(rng *rand.Rand, o, d *Obj) (Call, string) {
 				f := []string{"str", "rune", "int"}[rng.Intn(3)]
 				v := ""
 				if f != "int" {
-					v = []string{"&", "|", "!"}[rng.Intn(3)]
+					v = []string{"&", "|", "!", "X"}[rng.Intn(4)]
 				}
 				parts = append(parts, map[string]any{"form": f, "v": v})
 			}
